@@ -245,6 +245,8 @@ def analyse(facts, entries):
             expect("set_claim(%s) twice, then set_claim(other)" % K, seq(c1, c2, oth), {"dup": kq})
             expect("set_claim(other), then set_claim(%s)" % K, seq(oth, c1), {})
             expect("set_claim(%s), set_footer" % K, seq(c1, (D.set_footer, foot)), {})
+            # a successful build in between does not make the builder forget what the caller supplied
+            expect("set_claim(%s), build, set_claim(%s) again" % (K, K), seq(c1, (b, kk), c2), {"dup": kq})
         # (acknowledged, then set_claim(exp) is refused as a duplicate by the current code - no token, nothing to state)
         for K in ("K", "iss", "sub", "aud", "nbf", "iat", "jti"):
             # the acknowledgement stands for exp alone: every other registered claim (and a custom one) can still be set once afterwards
@@ -260,7 +262,7 @@ def analyse(facts, entries):
             if r2 == "C10.R4" and e.vp[1] != "Local":
                 continue
             fs.append(Finding(r2, not probs, e.id, "build contract over call sequences" if not probs else probs[0][:90], "; ".join(sorted(set(probs)))[:700], v.file(), b["line"],
-                              "%s: over 47 call sequences from default(): duplicate -> Err(Duplicate(that key)) and nothing built, also after an acknowledgement or a further claim and on a second build; "
+                              "%s: over 50 call sequences from default(): duplicate -> Err(Duplicate(that key)) and nothing built, also after an acknowledgement or a further claim, on a second build and when a successful build lies between the two occurrences; "
                               "exp removed exactly when acknowledged, before one generic build whose result is returned" % e.label))
         out[e.id] = fs, None
     # set_claim forwarding (version independent)
